@@ -385,3 +385,28 @@ func (t *Thread) Choose(n int) int {
 
 //go:norace
 func (t *Thread) Exec() *Exec { return t.x }
+
+// ThreadBlocked reports whether thread i is parked at an operation that cannot proceed now.
+//
+//go:norace
+func (x *Exec) ThreadBlocked(i int) bool {
+	if i < 0 || i >= x.n {
+		return false
+	}
+	t := x.threads[i]
+	return !t.done && !t.enabled()
+}
+
+// InHook makes Cur() return nil while fn runs, so that instrumented code called from a hook
+// (e.g. a read-only accessor that takes a lock) runs in pass-through mode.
+//
+//go:norace
+func (x *Exec) InHook(fn func()) {
+	saved := x.cur
+	x.cur = nil
+	defer func() { x.cur = saved }()
+	fn()
+}
+
+//go:norace
+func (t *Thread) Done() bool { return t.done }
